@@ -514,6 +514,17 @@ fn process_tags(
                         idx_output.insert(idx, events);
                     }
                 } else {
+                    if let Err(
+                        SvgdxError::LoopLimitError(..)
+                        | SvgdxError::VarLimitError(..)
+                        | SvgdxError::DepthLimitExceeded(..),
+                    ) = gen_result
+                    {
+                        // Exceeding a limit can't be fixed by retrying later, and a
+                        // retry would start from whatever state the failed attempt
+                        // left behind (e.g. loop variables), so give up immediately.
+                        return gen_result.map(|_| None);
+                    }
                     if let (Some(el), Err(err)) = (el, gen_result) {
                         if let SvgdxError::MultiError(err_list) = err {
                             for (idx, (el, err)) in err_list {
